@@ -73,6 +73,7 @@ package loading
 // DTO has none, the target's own platforms or else the package default), under label {key, d.Name}.
 //@ func getEnrichedPackage(logger, packagePath, pkg) (r, err)
 //@   pure
+//@   requires [known_handler_types] len(handlers.KnownHandlerTypes) == 3 && handlers.KnownHandlerTypes[0] == "file" && handlers.KnownHandlerTypes[1] == "dir" && handlers.KnownHandlerTypes[2] == "docker"
 //@   allocates r
 //@   define KEY() string = ite(packagePath == ".", "", packagePath)
 //@   ensures [every_target_registered] err == nil ==> r != nil && r.Targets != nil && (forall i int :: {pkg.Targets[i]} 0 <= i && i < len(pkg.Targets) ==>
